@@ -1603,6 +1603,12 @@ func (f *File) WriteTo(w io.Writer) (written int64, err error) {
 							b = pool.Get()
 							n = copy(b, data[:l])
 							b = b[:n]
+
+							// A short read of a regular file means the end of the file at that offset (as in readAt):
+							// whatever later chunks carry does not follow on from these bytes.
+							if n < chunkSize {
+								err = io.EOF
+							}
 						}
 
 					default:
